@@ -26,6 +26,10 @@ func read(c io.Reader) (data []byte, err error) {
 
 	data = make([]byte, l)
 	if _, err := io.ReadFull(c, data); err != nil {
+		if err == io.EOF {
+			// the stream ended inside a frame: not a clean end of stream
+			err = io.ErrUnexpectedEOF
+		}
 		return nil, err
 	}
 	return data, nil
